@@ -32,8 +32,8 @@ var c30Meta = []string{
 	"zqjaw\\",
 }
 
-// payloads for the option-pair phase at quick tier.
-var c30Core = []string{"\"><zqjar x=\"", "]]><zqjaj/>", "\x01zqjcb"}
+// core strings: quick tier uses the first two for the option-pair phase and all of them for sketch mode.
+var c30Core = []string{"\"><zqjar x=\"", "\x01zqjcb", "]]><zqjaj/>", "<zqjab>", "&zqjah;", "\" onload=\"zqjap", "'><zqjas x='", "\\\"zqjav"}
 
 // C0 controls used at quick tier (thorough: all 32): NUL, one ordinary illegal one, the three legal ones,
 // VT, ESC, US.
